@@ -208,6 +208,14 @@ class GrammarRule(Rule):
     """A named grammar rule."""
 
 
+class SkipRule(Rule):
+    """The optimizer's fusion of WHITESPACE and COMMENT, stored as `SKIP`.
+
+    A grammar is free to define its own rule called `SKIP`; only an instance
+    of this class is used to skip implicit trivia.
+    """
+
+
 class BuiltInRule(Rule):
     """The base class for all built-in rules."""
 
